@@ -785,34 +785,9 @@ fn run_ds(case: &str, d: &Ds, scratch: &Path, drv: &mut Driver, rep: &mut Report
         }
         if &got != spec {
             // (a really multi-line search has no line-by-line fast path: no class applies to it)
-            // `convert-byte-count-by-strategy`.  Mechanism: `SliceByLine::byte_count` reports the offset
-            // of the binary byte whenever one was found before `pos` -- right for `quit`, where the search
-            // ends there, but under `convert` the slice search goes on to the end while still reporting
-            // that offset; the reader reports the bytes it consumed.
-            // Test: (1) detection is `convert`; (2) a roll-buffer strategy, not a really multi-line
-            // search; (3) the streams are equal except for the byte count of the last event `finish`
-            // (same binary offset); (4) the slice search's count IS the offset of the first NUL of the
-            // input and the reader's count is larger.
-            // (experiment switch RGV_C02_CONVERT_COUNT_FIXED=1: class off, for a tree with
-            // /tmp/patches/c02-convert-byte-count.patch applied; unset, it changes nothing)
-            let convert_count = std::env::var("RGV_C02_CONVERT_COUNT_FIXED").is_err() && d.det == 2 && reader_strategy && !real_ml && spec.len() == got.len() && spec.len() >= 2 && {
-                let n = spec.len() - 1;
-                let f = |e: &str| -> Option<(u64, String)> {
-                    let mut it = e.strip_prefix("finish ")?.splitn(2, ' ');
-                    Some((it.next()?.parse().ok()?, it.next().unwrap_or("").to_string()))
-                };
-                let seen = if d.sniff { transcoded_text(d, &inp).unwrap_or_else(|| inp.clone()) } else { inp.clone() };
-                let first_nul = seen.iter().position(|&b| b == 0).map(|i| i as u64);
-                match (f(&spec[n]), f(&got[n])) {
-                    (Some((cs, bs)), Some((cg, bg))) => {
-                        spec[..n] == got[..n] && bs == bg && Some(cs) == first_nul && cg > cs
-                    }
-                    _ => false,
-                }
-            };
-            let class = if convert_count {
-                "convert-byte-count-by-strategy"
-            } else if det_differs {
+            // (`convert-byte-count-by-strategy` -- under `convert` a slice search reported the first NUL's offset as
+            // bytes searched -- was repaired by /repo 848ed7e: such a difference is a new violation now)
+            let class = if det_differs {
                 "binary-detection-window-by-strategy"
             } else if real_ml {
                 if transcoder_mechanism(d, &m, &inp, reader_strategy, &got, true) {
